@@ -106,7 +106,7 @@ def draw(schema, size: int, n: int, seed: int, cap_s: int, **kw):
 
 
 def _one(job):
-    idx, vec, tier, seed = job
+    idx, vec, tier, seed, only_kind = job
     import pandas as pd
     import pandera as pa
 
@@ -116,7 +116,7 @@ def _one(job):
     out: Dict[str, Any] = {"idx": idx, "events": []}
     if vec["kind"] == "strategy_str":
         checks = [mk_str_check(c, pa) for c in vec["chain"]]
-        kinds = ["series", "frame"][idx % 2:][:1]
+        kinds = [only_kind]
         dtype: Any = str
         consts = None
         cont = {"nullable": False, "unique": False, "size": 2}
@@ -125,7 +125,7 @@ def _one(job):
         consts = CONST[dtype]
         checks = [mk_check(c, consts, pa) for c in vec["chain"]]
         cont = vec["cont"]
-        kinds = [["series", "frame", "index", "regex"][idx % 4]] if tier == "quick" else ["series", "frame", "index", "regex"]
+        kinds = [only_kind]
     for kind in kinds:
         kw: Dict[str, Any] = {}
         if kind == "series":
@@ -152,6 +152,8 @@ def _one(job):
                 col = get(d)
                 vals = list(col)
                 rec: Dict[str, Any] = {"size": len(vals), "has_duplicates": bool(pd.Series(vals).duplicated().any()),
+                                       "has_nonnull_duplicates": bool(pd.Series(vals).dropna().duplicated().any()),
+                                       "has_null": bool(pd.Series(vals).isna().any()),
                                        "physical_dtype": str(col.dtype)}
                 if consts is not None:
                     rec["ranks"] = [rank(v, consts) for v in vals]
@@ -180,13 +182,25 @@ def _one(job):
 def main(argv: List[str]) -> int:
     out_path, schemas_path, tier, seed = argv[0], argv[1], argv[2], int(argv[3])
     vecs = json.loads(open(schemas_path).read())
-    jobs = [(i, v, tier, seed) for i, v in enumerate(vecs)]
+    import pandera  # noqa: F401  (imported before the fork: every job runs in a fresh process)
+    import pandera.strategies.pandas_strategies  # noqa: F401
+
+    jobs = []
+    for i, v in enumerate(vecs):
+        if v["kind"] == "strategy_str":
+            kinds = [["series", "frame"][i % 2]]
+        elif tier == "quick":
+            kinds = [["series", "frame", "index", "regex"][i % 4]]
+        else:
+            kinds = ["series", "frame", "index", "regex"]
+        jobs += [(i, v, tier, seed, k) for k in kinds]
     ctx = mp.get_context("fork")
     nproc = int(os.environ.get("VERIF_NPROC", "16"))
-    res: List[Any] = [None] * len(jobs)
-    with ctx.Pool(nproc) as p:
-        for r in p.imap_unordered(_one, jobs, chunksize=8):
-            res[r["idx"]] = r
+    res: List[Any] = [{"idx": i, "events": []} for i in range(len(vecs))]
+    # a timed-out draw is interrupted inside hypothesis and leaves its state dirty: one process per job
+    with ctx.Pool(nproc, maxtasksperchild=1) as p:
+        for r in p.imap_unordered(_one, jobs, chunksize=1):
+            res[r["idx"]]["events"].extend(r["events"])
     with open(out_path, "w") as fh:
         json.dump(res, fh)
     return 0
